@@ -53,6 +53,7 @@ static char   d_old[CAP + 1];  static size_t d_oldlen; static int d_oldexists;
 static char   d_new[CAP + 1];  static size_t d_newlen; static int d_newknown;   /* content handed to the write call */
 static int    g_wopen_calls, g_wopen_ok, g_fprintf_calls, g_exit_code = -1, g_returned = -1, g_open_streams;
 static int    g_step;                                            /* file-system call boundaries passed */
+static int    g_write_failed;
 static FILE   g_fobj;
 #ifdef VERIF_CBMC
 static FILE g_stdout_obj, g_stderr_obj;
@@ -60,6 +61,7 @@ FILE *stdout = &g_stdout_obj;
 FILE *stderr = &g_stderr_obj;
 #endif
 static int    s_mode; static size_t s_rpos; static char s_pend[CAP + 1]; static size_t s_pendlen;
+static size_t s_wpos;          /* file offset at which the next flushed byte lands */
 
 static int disk_is(const char *c, size_t n, int exists)
 {
@@ -70,16 +72,20 @@ static int disk_is(const char *c, size_t n, int exists)
 }
 
 #ifdef CRASH
-static int g_write_failed;
 static void crash_oracle(void)
 {
-#ifdef KF_truncate_then_write
-    if (g_write_failed) return;      /* known finding: a failing write leaves the truncated/partial file behind (only its reporting is still required) */
-#endif
     /* C20: at the instant the process dies the file holds the complete old or the complete new content */
     /* an absent file and an empty file are the same to the dynamic loader */
     int is_old = (d_oldlen == 0) ? (!d_exists || d_len == 0) : disk_is(d_old, d_oldlen, 1);
     int is_new = d_newknown && disk_is(d_new, d_newlen, 1);
+#ifdef KF_truncate_then_write
+    /* known finding: truncate-then-write leaves the file EMPTY or holding a PREFIX of the new content while the rewrite is
+     * in flight or after a failed write.  Exactly those states are excluded; any other state (old/new mixtures, foreign
+     * bytes, growth) is still a violation. */
+    int is_prefix = d_exists && (!d_newknown ? d_len == 0 : d_len <= d_newlen);
+    if (is_prefix && d_newknown) for (size_t i = 0; i < d_len; i++) if (d_disk[i] != d_new[i]) is_prefix = 0;
+    if (g_wopen_ok > 0 && is_prefix) return;
+#endif
     V_ASSERT(is_old || is_new, "C20: killed/failed at a system-call boundary => file holds the complete previous or the complete new content");
 }
 static void boundary(void)
@@ -102,9 +108,21 @@ static void boundary(void) { g_step++; }
 FILE *fopen(const char *path, const char *mode)
 {
     V_ASSERT(strcmp(path, "/p") == 0, "C20: no file other than the preload file is opened");
-    if (mode[0] == 'r') {
+    if (mode[0] == 'r' && mode[1] != '+' && !(mode[1] != '\0' && mode[2] == '+')) {
         if (!d_exists) { errno = ENOENT; return NULL; }
         s_mode = 'r'; s_rpos = 0; g_open_streams++;
+        return &g_fobj;
+    }
+    if (mode[0] == 'r') {                       /* "r+": update in place, no truncation, position 0 */
+        g_wopen_calls++;
+        boundary();
+        if (!d_exists) { errno = ENOENT; return NULL; }
+#ifdef CRASH
+        if (IN.fail_open & 1) { errno = EACCES; return NULL; }
+#endif
+        g_wopen_ok++;
+        s_mode = 'w'; s_pendlen = 0; s_wpos = 0; s_rpos = 0; g_open_streams++;
+        boundary();
         return &g_fobj;
     }
     V_ASSERT(mode[0] == 'w' || mode[0] == 'a', "MODEL fopen: unexpected mode");
@@ -113,8 +131,8 @@ FILE *fopen(const char *path, const char *mode)
 #ifdef CRASH
     if (IN.fail_open & 1) { errno = EACCES; return NULL; }
 #endif
-    if (mode[0] == 'w') { d_len = 0; d_exists = 1; }           /* O_TRUNC takes effect at open */
-    else d_exists = 1;
+    if (mode[0] == 'w') { d_len = 0; d_exists = 1; s_wpos = 0; }           /* O_TRUNC takes effect at open */
+    else { d_exists = 1; s_wpos = d_len; }
     g_wopen_ok++;
     s_mode = 'w'; s_pendlen = 0; g_open_streams++;
     boundary();
@@ -123,7 +141,7 @@ FILE *fopen(const char *path, const char *mode)
 
 static void flush_n(size_t n)
 {
-    for (size_t i = 0; i < n && i < s_pendlen; i++) if (d_len < CAP) d_disk[d_len++] = s_pend[i];
+    for (size_t i = 0; i < n && i < s_pendlen; i++) if (s_wpos < CAP) { d_disk[s_wpos++] = s_pend[i]; if (s_wpos > d_len) d_len = s_wpos; }
     size_t k = 0;
     for (size_t i = n; i < s_pendlen; i++) s_pend[k++] = s_pend[i];
     s_pendlen = k;
@@ -146,7 +164,7 @@ int fprintf(FILE *fp, const char *fmt, ...)
     if (IN.fail_write & 1) {                                     /* ENOSPC / EIO / EDQUOT after a partial write */
         g_write_failed = 1;
         size_t k = IN.partial % (n + 1);
-        for (size_t i = 0; i < k; i++) if (d_len < CAP) d_disk[d_len++] = s[i];
+        for (size_t i = 0; i < k; i++) if (s_wpos < CAP) { d_disk[s_wpos++] = s[i]; if (s_wpos > d_len) d_len = s_wpos; }
         errno = ENOSPC;
         boundary();
         return -1;
@@ -162,11 +180,30 @@ int fprintf(FILE *fp, const char *fmt, ...)
 
 int fclose(FILE *fp)
 {
-    V_ASSERT(fp == &g_fobj && g_open_streams == 1, "MODEL fclose: stream not open");
+    V_ASSERT(fp == &g_fobj && g_open_streams == 1, "STDIO MISUSE fclose: stream not open (double close)");
     if (s_mode == 'w') { boundary(); flush_n(s_pendlen); boundary(); }
     g_open_streams--;
     return 0;
 }
+
+int fflush(FILE *fp)
+{
+    if (fp == &g_fobj && s_mode == 'w') { boundary(); flush_n(s_pendlen); boundary(); }
+    return 0;
+}
+int fileno(FILE *fp) { (void)fp; return 5; }
+int ftruncate(int fd, off_t len)
+{
+    V_ASSERT(fd == 5, "C20: no file other than the preload file is truncated");
+    boundary();
+#ifdef CRASH
+    if (IN.fail_write & 2) { errno = EIO; g_write_failed = 1; boundary(); return -1; }
+#endif
+    if (len >= 0 && (size_t)len <= d_len) d_len = (size_t)len;
+    boundary();
+    return 0;
+}
+int fsync(int fd) { (void)fd; return 0; }
 
 int fseek(FILE *fp, long off, int whence) { (void)fp; s_rpos = (whence == SEEK_END) ? d_len + (size_t)off : (size_t)off; return 0; }
 long ftell(FILE *fp) { (void)fp; return (long)s_rpos; }
@@ -326,7 +363,7 @@ void harness(void)
 #if defined(CRASH) && defined(KF_truncate_then_write)
     /* known finding (C20): the file is rewritten by truncate-then-write; exclude crash points and failures inside
      * that window: only runs that die before the write-open or after the close are left */
-    V_ASSUME(IN.crash_at == 255 || IN.crash_at == 0);
+    /* (the exclusion is state based, see crash_oracle) */
 #endif
     g_ref_own = ref_own(d_old, d_oldlen);
     g_ref_active = ref_active_lines(d_old, d_oldlen);
